@@ -1,7 +1,7 @@
 (* C04 property theorems (statements only; proofs in Progress.v / Batch.v). *)
 From Coq Require Import List Bool Arith.
 Import ListNotations.
-From Miller Require Import C04.Model C04.Search C04.Progress C04.Batch.
+From Miller Require Import C04.Model C04.Search C04.Progress C04.Batch C04.Termination.
 
 (* Every run of the repaired protocol (non-blocking done-flag sends) can always take a step until main has
    exited: no deadlock, for every number of verbs, every number of batches, every verb behaviour (relaying,
@@ -35,6 +35,21 @@ Theorem C04_any_two_batchings_agree :
     run_batched item st vstep vfin s0 bs = run_batched item st vstep vfin s0 bs'.
 Proof. exact any_two_batchings_agree. Qed.
 Print Assumptions C04_any_two_batchings_agree.
+
+(* No run is infinite: every step strictly decreases a natural-number measure (batches move towards the writer,
+   flags move upstream or are dropped, every failure is charged once) -- under BOTH done-flag protocols and with
+   failures of reader, verbs and writer. *)
+Theorem C04_no_infinite_runs : forall blocking, well_founded (fun s' s => step blocking s s').
+Proof. exact no_infinite_runs. Qed.
+Print Assumptions C04_no_infinite_runs.
+
+(* Hence every run of the repaired protocol terminates with main exited: from every reachable state a final state
+   is reached (no deadlock + no infinite run), for every chain length, number of batches and interleaving. *)
+Theorem C04_every_run_terminates :
+  forall (k : nat) (kinds : list bool), kinds <> [] ->
+  forall s, reachable false (init k kinds) s -> exists s', reachable false s s' /\ is_final s' = true.
+Proof. exact every_run_reaches_final. Qed.
+Print Assumptions C04_every_run_terminates.
 
 (* non-vacuity: the initial state is reachable and not final; a three-verb run exists that terminates *)
 Example C04_nonvacuous :
